@@ -150,6 +150,136 @@ type Stream struct {
 	// Run evaluates the implementation on one parsed input and returns its observable output as a
 	// list of integers (Nums string). A panic is caught by the caller and reported as "panic".
 	Run func(a Args) string
+	// Shrink (optional) returns CANDIDATE smaller inputs for one input line: well-formed encodings
+	// of the same case with an operation / a suffix / a script line removed, a move list truncated,
+	// a numeric field reduced ... ordered smallest-change-first (the most aggressive cuts come
+	// last). It must be a pure function of the input line and must not run the code under test in a
+	// way that can hang. The witness search of ./check (lib/props.py shrink_witness) re-runs the
+	// implementation and the judge on the candidates and keeps one only when the judge still fails
+	// with the same clause, so a candidate that no longer fails costs nothing but time.
+	Shrink func(in string) []string
+	// Describe (optional) renders the human readable replay of an input line (what Gen put into
+	// Input.Desc), so that a shrunk witness gets a description of its own.
+	Describe func(a Args) string
+}
+
+// SafeShrink returns the candidates of s.Shrink for one input line: deduplicated, without the
+// input itself, smallest change first; nil if the stream has no Shrink or it panics. limit > 0
+// thins the list out to limit candidates evenly spread over it (the last one, the most aggressive
+// cut, always among them).
+func SafeShrink(s *Stream, line string, limit int) (out []string) {
+	out = safeShrink(s, line)
+	if n := len(out); limit > 0 && n > limit {
+		thin := make([]string, 0, limit)
+		for k := 1; k <= limit; k++ {
+			thin = append(thin, out[k*n/limit-1])
+		}
+		out = thin
+	}
+	return out
+}
+
+func safeShrink(s *Stream, line string) (out []string) {
+	if s.Shrink == nil {
+		return nil
+	}
+	defer func() {
+		if r := recover(); r != nil {
+			out = nil
+		}
+	}()
+	self := strings.Join(strings.Fields(line), " ")
+	seen := map[string]struct{}{self: {}}
+	for _, c := range s.Shrink(line) {
+		c = strings.Join(strings.Fields(c), " ")
+		if _, dup := seen[c]; dup || c == "" {
+			continue
+		}
+		seen[c] = struct{}{}
+		out = append(out, c)
+	}
+	// smallest change first = longest candidate first (ties keep the order of the shrinker)
+	ntok := func(c string) int { return strings.Count(c, " ") + 1 }
+	sort.SliceStable(out, func(i, j int) bool {
+		if a, b := ntok(out[i]), ntok(out[j]); a != b {
+			return a > b
+		}
+		return len(out[i]) > len(out[j])
+	})
+	return out
+}
+
+// SafeDescribe renders the description of one input line ("" if the stream cannot).
+func SafeDescribe(s *Stream, line string) (out string) {
+	if s.Describe == nil {
+		return ""
+	}
+	defer func() {
+		if r := recover(); r != nil {
+			out = ""
+		}
+	}()
+	a, err := ParseArgs(line)
+	if err != nil {
+		return ""
+	}
+	return strings.ReplaceAll(s.Describe(a), "\n", "\\n")
+}
+
+// ShrinkSep ends the candidate list of one input line in the output of `h shrink`.
+const ShrinkSep = "--"
+
+// Cut is a half-open index range [Lo, Hi) to be removed from a sequence.
+type Cut struct{ Lo, Hi int }
+
+// Cuts lists the removals a shrinker should try on a sequence of n elements, smallest first: every
+// single element, then runs of 2, 3, 4, 6, 8, 12, 16, ... elements (sliding by half a run, the run
+// that ends the sequence first), never the whole sequence when keep > 0 (at least keep elements
+// stay). The largest runs - the most aggressive candidates - are at the end of the list.
+func Cuts(n, keep int) []Cut {
+	var out []Cut
+	if n <= 0 {
+		return nil
+	}
+	var sizes []int
+	for p := 1; p <= n; p *= 2 {
+		sizes = append(sizes, p)
+		if p >= 2 && 3*p/2 <= n {
+			sizes = append(sizes, 3*p/2)
+		}
+	}
+	sort.Ints(sizes)
+	if sizes[len(sizes)-1] != n {
+		sizes = append(sizes, n)
+	}
+	for _, c := range sizes {
+		if n-c < keep {
+			break
+		}
+		step := max(1, c/2)
+		for hi := n; hi-c >= 0; hi -= step {
+			out = append(out, Cut{hi - c, hi})
+		}
+		if (n-c)%step != 0 { // the run that starts the sequence
+			out = append(out, Cut{0, c})
+		}
+	}
+	return out
+}
+
+// Toks splits an input line into its tokens (kept as text: re-emitting a token never changes it).
+func Toks(line string) []string { return strings.Fields(line) }
+
+// Hex is one integer in the wire format.
+func Hex(x int64) string { return (&Nums{}).I(x).String() }
+
+// JoinToks concatenates token lists into one input line.
+func JoinToks(parts ...[]string) string {
+	var all []string
+	for _, p := range parts {
+		all = append(all, p...)
+	}
+	return strings.Join(all, " ")
 }
 
 var registry = map[string]*Stream{}
